@@ -330,3 +330,26 @@ Proof. vm_compute. auto. Qed.
 
 Example regex_hyp_sat : has_regex (single (ARegex VName {| p_re := RAny; p_eol := true |})) = true.
 Proof. reflexivity. Qed.
+
+(* ---- two readings a user may not expect (design of the filter language, stated so that nobody has to guess) ---- *)
+(* there is no precedence: a or b and c is (a or b) and c, a and b or c is (a and b) or c *)
+Lemma mixed_chain_left : forall a b c e,
+  eval {| x_first := a; x_rest := [(BOr, b); (BAnd, c)] |} e = (eval_atom a e || eval_atom b e) && eval_atom c e
+  /\ eval {| x_first := a; x_rest := [(BAnd, b); (BOr, c)] |} e = (eval_atom a e && eval_atom b e) || eval_atom c e.
+Proof. intros. rewrite !eval_fold_left. split; reflexivity. Qed.
+
+(* ... so the usual convention (and binds tighter than or) is not what a filter means:
+   @state = "DONE" or x = "a" and x = "zz"  is false on a DONE job tagged x=a *)
+Lemma usual_precedence_refuted : exists a b c e,
+  eval {| x_first := a; x_rest := [(BOr, b); (BAnd, c)] |} e = false /\
+  (meaning_atom a e \/ (meaning_atom b e /\ meaning_atom c e)).
+Proof.
+  exists (AEq VState (OConst (state_name Done))), (AEq (VTag [120]) (OConst [97])), (AEq (VTag [120]) (OConst [122; 122])),
+         {| e_tags := [([120], [97])]; e_state := Some Done; e_name := [116] |}.
+  split; [reflexivity|left; reflexivity].
+Qed.
+
+(* v = w between two look-ups that are both missing is true (None == None) *)
+Lemma missing_equals_missing : forall v w e,
+  get v e = None -> get w e = None -> eval (single (AEq v (OVar w))) e = true.
+Proof. intros v w e Hv Hw. unfold eval, compile, single. cbn. rewrite Hv, Hw. reflexivity. Qed.
